@@ -213,20 +213,32 @@ def parse_sim_files(prefix_dir):
   for path in sorted(glob.glob(os.path.join(prefix_dir, 'tr_*'))):
     txt = open(path).read()
     states = []
-    # each state: "\* <Action ...>\nSTATE_n ==\n/\ v = ...\n/\ w = ..."
-    for m in re.finditer(r'(?:\\\* <(\w+)[^\n]*>\n)?STATE_(\d+) ==\s*\n((?:(?:/\\ |   ).*\n?)+)', txt):
-      action = m.group(1) or 'Init'
-      body = m.group(3)
-      st = {}
-      cur = None
-      for line in body.split('\n'):
-        if line.startswith('/\\ '):
-          k, _, v = line[3:].partition(' = ')
-          cur = k.strip()
-          st[cur] = v
-        elif cur and line.strip():
-          st[cur] += ' ' + line.strip()
-      states.append((action, st))
+    # each state: "\* <Action ...>\nSTATE_n ==\n/\ v = ...\n/\ w = ..." (values may continue on following lines)
+    action, st, cur = None, None, None
+    for line in txt.split('\n'):
+      m = re.match(r'^\\\* <(\w+)', line)
+      if m:
+        action = m.group(1)
+        continue
+      if re.match(r'^STATE_\d+ ==', line):
+        if st is not None:
+          states.append((prev_action, st))
+        st, cur = {}, None
+        prev_action = action or 'Init'
+        action = None
+        continue
+      if st is None:
+        continue
+      if line.startswith('/\\ '):
+        k, _, v = line[3:].partition(' = ')
+        cur = k.strip()
+        st[cur] = v
+      elif cur and line.strip() and not line.startswith(('\\*', '====', '----')):
+        st[cur] += ' ' + line.strip()
+      elif not line.strip():
+        cur = None
+    if st is not None:
+      states.append((prev_action, st))
     out.append((os.path.basename(path), states))
   return out
 
